@@ -5436,6 +5436,11 @@ class DfaCompileCtx:
             if any(x.may_return_early() for x in combined_actions) and any(x.get_target_override_mode() == ActionOverrideMode.MAY_GOTO_TARGET for x in combined_actions):
                 continue
 
+            # A yield on this fallthrough happens before the byte is consumed and nothing is performed behind it on its transition: merged, it would be
+            # reported a byte late and the actions of the consuming transition would never run.
+            if any(x.may_return_early() for x in transition.actions):
+                continue
+
             # Are there actions? If so, does this violate the threshold
             if len(next_target.actions) > 0:
                 max_count = ProgramData.option(ProgramOption.MAX_SHORTCIRCUIT_FALLTHROUGH) - ProgramData.option(ProgramOption.MAX_SHORTCIRCUIT_ACTION_PENALTY)*(len(next_target.actions)-1)
@@ -5476,6 +5481,10 @@ class DfaCompileCtx:
             # Merged with an action that may leave without consuming (an append that overflows, a break under an if) that would skip a byte.
             combined_actions = [*transition.actions, *to_replace.actions]
             if any(x.may_return_early() for x in combined_actions) and any(x.get_target_override_mode() == ActionOverrideMode.MAY_GOTO_TARGET for x in combined_actions):
+                continue
+
+            # Nothing is performed behind an action that returns early: it has to stay the last one of its transition.
+            if any(x.may_return_early() for x in transition.actions):
                 continue
 
             if len(to_replace.actions) > 0:
